@@ -210,6 +210,16 @@ def install(E):
                 return isinstance(o, tuple)
             if nm == "dict":
                 return isinstance(o, PDict)
+            if nm in ("Sequence", "Reversible"):
+                return isinstance(o, (PList, tuple, str, Str, OpaqueStr, Bytes, range))
+            if nm == "MutableSequence":
+                return isinstance(o, PList) or (isinstance(o, Bytes) and o.kind == "bytearray")
+            if nm in ("Iterable", "Collection", "Sized", "Container"):
+                return isinstance(o, (PList, tuple, str, Str, OpaqueStr, Bytes, range, PDict))
+            if nm in ("Mapping", "MutableMapping"):
+                return isinstance(o, PDict)
+            if nm == "range":
+                return isinstance(o, range)
         raise Unsupported("isinstance() classinfo")
 
     @nat("issubclass")
@@ -415,7 +425,7 @@ def install(E):
         if not isinstance(x, Bytes):
             E.throw("TypeError", "memoryview: a bytes-like object is required")
         E.assumptions_used.add("memoryview-as-copy")
-        return E.mk_bytes(x.items, False, "memoryview")
+        return E.mk_bytes(x.items, False, "memoryview", x.base if x.kind == "memoryview" else x)
 
     # ------------------------------------------------------------------ float division lemma
     def float_to_int(q, mode="trunc"):
@@ -775,7 +785,10 @@ def install_stubs(E):
     typing_ns["cast"] = Native(lambda t, v: v, "cast")
     typing_ns["TYPE_CHECKING"] = False
     S["typing"] = module("typing", **typing_ns)
-    S["collections.abc"] = module("collections.abc", **typing_ns)
+    abc_ns = dict(typing_ns)
+    for n in ("Sequence", "MutableSequence", "Iterable", "Collection", "Sized", "Container", "Mapping", "MutableMapping", "Reversible", "Iterator"):
+        abc_ns[n] = Native(lambda *a, **k: None, n)       # usable in annotations / subscripts and as isinstance() classinfo
+    S["collections.abc"] = module("collections.abc", **abc_ns)
     S["collections"] = module("collections")
 
     abc_cls = Cls("ABC", [], {}, module="abc")
